@@ -8,6 +8,10 @@ from .pat import m, ANY, V, K, Par, C, F, E, P, B, Phi, OneOf, members, strip_it
 from .search import opt_arms, bool_arms, switches_on, is_const, self_param
 
 VEC_PUSH = "alloc::vec::Vec::push"
+# mutators of a Vec that never remove or reorder elements
+QUEUE_GROWERS = {VEC_PUSH, "alloc::vec::Vec::reserve", "alloc::vec::Vec::reserve_exact", "alloc::vec::Vec::extend_from_slice",
+                 "core::iter::Extend::extend", "alloc::vec::Vec::shrink_to_fit", "core::iter::Iterator::for_each",
+                 "core::ops::Index::index", "core::ops::Deref::deref", "alloc::vec::Vec::len", "alloc::vec::Vec::as_slice"}
 VEC_LEN = "alloc::vec::Vec::len"
 
 
@@ -337,6 +341,18 @@ def _fail_pass(ctx, R, NR, b):
     else:
         NR.std_pass = b
     ret, pushes = _queue_terms(root, b)
+    # the returned queue is the visiting order of the outputs pass: it only ever grows (no retain/remove/truncate/… on it)
+    if ret[0] == "var":
+        shrink = []
+        for kind, t, bb in root.T.container_defs(ret[2]):
+            t = pnorm(t)
+            if t[0] == "mutby" and isinstance(t[1], str) and core.callee_base(t[1]) not in QUEUE_GROWERS:
+                shrink.append((core.callee_base(t[1]), bb))
+        ctx.note("queue_mutators:" + tag, sorted({pnorm(t)[1] for k, t, bb in root.T.container_defs(ret[2]) if pnorm(t)[0] == "mutby"
+                                                  and isinstance(pnorm(t)[1], str)}))
+        ctx.check(not shrink, "NFA-FAIL", b, "queue-only-grows:" + tag, b.loc(shrink[0][1]) if shrink else b.span,
+                  "the returned queue must list every visited state (the outputs pass inherits along it): the only mutations allowed are "
+                  "additions; found %s" % sorted({s[0] for s in shrink}))
     # queue consumption: q[qi], qi = phi{0, qi+1}
     idx_reads = []
     for vw, bi, c, tj in fv.calls(lambda c: core.callee_base(c.key) in ("core::ops::Index::index", "core::slice::get")):
